@@ -22,7 +22,7 @@ for spec in rest:
     src = open(os.path.join(V, 'coq', f)).read()
     src_nc = re.sub(r'\(\*.*?\*\)', '', src, flags=re.S)
     for nm in names.split(','):
-        m = re.search(r'^\s*(?:Lemma|Theorem|Example|Corollary)\s+' + re.escape(nm) + r'\b(.*?)\.\s*\n\s*Proof', src_nc, re.S | re.M)
+        m = re.search(r'^\s*(?:Lemma|Theorem|Example|Corollary|Remark|Fact)\s+' + re.escape(nm) + r'\b(.*?)\.\s*\n\s*Proof', src_nc, re.S | re.M)
         if not m: raise SystemExit(f'{nm} not found in {f}')
         binders, stmt = split_binders_stmt(m.group(1))
         stmt = ' '.join(stmt.split()); binders = ' '.join(binders.split())
